@@ -17,10 +17,11 @@ LIBS = [
      "m2.mo": "within L; model M2 extends M1; Real b; equation b = a + c0; end M2;",
      "_models": ["L.M1", "L.M2", "L.Units.U"]},
     # a class that declares both an unqualified and a plain qualified import, in its own file; a model of another file uses the latter
-    {"consts.mo": "package Phys package Consts constant Real g = 9.81; constant Real rho = 1000; end Consts; package Aux constant Real eps = 0.5; end Aux; end Phys;",
+    {"consts.mo": "package Phys package Consts constant Real g = 9.81; constant Real rho = 1000; end Consts; package Aux constant Real eps = 0.5; model Valve Real dp; equation dp = 2; end Valve; end Aux; end Phys;",
      "lib.mo": "package Lib constant Real one = 1; end Lib;",
      "models.mo": "within Lib; package Models import Phys.Aux.*; import Phys.Consts; end Models;",
-     "tank.mo": "within Lib.Models; model Tank Real p; Real q; equation p = Consts.rho * Consts.g; q = eps; end Tank;",
+     # (Valve is a class that only the unqualified import of the enclosing package Models makes visible)
+     "tank.mo": "within Lib.Models; model Tank Real p; Real q; Valve vl; equation p = Consts.rho * Consts.g; q = eps; end Tank;",
      "pipe.mo": "within Lib.Models; model Pipe Real f; equation f = 2 * Consts.g; end Pipe;",
      "_models": ["Lib.Models.Tank", "Lib.Models.Pipe"]},
     {"top.mo": "class Lib constant Real w = 2; model T Real t; equation t = w; end T; end Lib;",
